@@ -13,10 +13,12 @@ pub struct Layout {
     pub canonical: bool,
     /// number of unused filler entries put in front of the pool (pushes indices over 255)
     pub pool_filler: usize,
+    /// unused filler entries may be Long/Double (two-slot) constants
+    pub two_slot_fillers: bool,
 }
 impl Layout {
-    pub fn canonical() -> Layout { Layout { seed: 0, canonical: true, pool_filler: 0 } }
-    pub fn random(seed: u64) -> Layout { Layout { seed, canonical: false, pool_filler: 0 } }
+    pub fn canonical() -> Layout { Layout { seed: 0, canonical: true, pool_filler: 0, two_slot_fillers: true } }
+    pub fn random(seed: u64) -> Layout { Layout { seed, canonical: false, pool_filler: 0, two_slot_fillers: true } }
 }
 
 type Id = u32;
@@ -108,7 +110,7 @@ pub fn emit(c: &Class, layout: &Layout) -> Result<Vec<u8>, String> {
         match s {
             Some(id) => { assigned[*id as usize].push(idx); order.push((idx, Some(*id), 0)); next += if matches!(e.pool.entries[*id as usize], K::Long(_) | K::Double(_)) { 2 } else { 1 }; }
             None => {
-                let k = match rng.below(5) { 0 => K::Int(rng.next_u32() as i32), 1 => K::Long(rng.next_u64() as i64), 2 => K::Double(rng.next_u64()), 3 => K::Float(rng.next_u32()), _ => K::Utf8(format!("filler{}", rng.below(1000)).into_bytes()) };
+                let k = match rng.below(5) { 0 => K::Int(rng.next_u32() as i32), 1 | 2 if !layout.two_slot_fillers => K::Float(rng.next_u32()), 1 => K::Long(rng.next_u64() as i64), 2 => K::Double(rng.next_u64()), 3 => K::Float(rng.next_u32()), _ => K::Utf8(format!("filler{}", rng.below(1000)).into_bytes()) };
                 next += if matches!(k, K::Long(_) | K::Double(_)) { 2 } else { 1 };
                 fillers.push(k); order.push((idx, None, fillers.len() - 1));
             }
